@@ -282,3 +282,44 @@ Proof.
   - exists (buf s ++ concat (q s)). now rewrite app_nil_r.
   - exists (buf s ++ concat (q s)). now rewrite app_nil_r.
 Qed.
+
+(* what the checker of the PublishData driver means: header, then a subsequence of the records, whole *)
+Lemma prefix_b_split r : forall s, prefix_b r s = true -> s = r ++ zskipn (zlen r) s.
+Proof.
+  induction r as [|x r IH]; intros s H; [reflexivity|].
+  destruct s as [|y s]; [discriminate|]. simpl in H. apply andb_true_iff in H as [H1 H2].
+  apply Z.eqb_eq in H1. subst y. rewrite (IH s H2) at 1.
+  unfold zskipn, zlen. simpl length. rewrite !Nat2Z.id. reflexivity.
+Qed.
+
+Lemma match_sub_sound recs : forall s, match_sub recs s = true ->
+  exists flags, length flags = length recs /\ s = concat (map fst (filter snd (combine recs flags))).
+Proof.
+  induction recs as [|r recs IH]; intros s H; simpl in H.
+  - destruct s; [|discriminate]. exists []. split; reflexivity.
+  - destruct (prefix_b r s && negb (zlen r =? 0)) eqn:E.
+    + apply andb_true_iff in E as [E1 _]. destruct (IH _ H) as (fl & L & Es).
+      exists (true :: fl). split; [simpl; now rewrite L|]. simpl.
+      rewrite <- Es. now apply prefix_b_split.
+    + destruct (IH _ H) as (fl & L & Es). exists (false :: fl). split; [simpl; now rewrite L|]. exact Es.
+Qed.
+
+Lemma strip_prefix_sound h : forall s r, strip_prefix h s = Some r -> s = h ++ r.
+Proof.
+  induction h as [|x h IH]; intros s r H; simpl in H; [inversion H; reflexivity|].
+  destruct s as [|y s]; [discriminate|]. destruct (x =? y) eqn:E; [|discriminate].
+  apply Z.eqb_eq in E. subst. simpl. f_equal. now apply IH.
+Qed.
+
+Lemma pub_checker_means hdr recs strm hung :
+  C07_check_pipe_sub hdr recs strm hung = true ->
+  hung = false /\
+  exists flags, length flags = length recs /\
+                strm = hdr ++ concat (map fst (filter snd (combine recs flags))).
+Proof.
+  unfold C07_check_pipe_sub. intros H. apply andb_true_iff in H as [H1 H2].
+  apply negb_true_iff in H1. split; [exact H1|].
+  destruct (strip_prefix hdr strm) as [rest|] eqn:E; [|discriminate].
+  destruct (match_sub_sound _ _ H2) as (fl & L & Es). exists fl. split; [exact L|].
+  rewrite (strip_prefix_sound _ _ _ E), Es. reflexivity.
+Qed.
